@@ -359,6 +359,15 @@ def check_fee_deduction_all_kinds(ctx, model, crate, rule):
             reach = v.reachable(0, cut_edges=cut)
             if not all(xb in reach for xb in subs):
                 bad.append(kind)
+        # ... nor may it hang on one side of a test of the asset's identity (`pool.info.equal(&offer.info)`): cutting any
+        # single out-edge of such a test must leave the subtraction reachable
+        for sb, c, edges in switch_conds(v):
+            if c.kind == "call" and c.callee.endswith("AssetInfo::equal"):
+                for e in v.edges_from(sb):
+                    r = v.reachable(0, cut_edges=[(sb, e[1])])
+                    if not all(xb in r for xb in subs):
+                        bad.append("one side of AssetInfo::equal at line %s" % v.line_of_block(sb))
+                        break
         ctx.ob(rule, "%s|fee-deducted-for-every-asset-kind" % p, not bad,
                "pending-fee subtraction unreachable when the pool asset is a %s" % bad if bad else "pending-fee subtraction reachable for cw20 and native pool assets alike", v.where(subs[0]))
     ctx.floor(rule, "%s functions deducting pending fees" % crate, n, 5)
